@@ -22,7 +22,7 @@ ASSUMPTIONS = ["model: leaves in rendered order get s + i*d; start 0 clears; the
                "error conditions raise ValueError; nothing is claimed about numbers left behind by a "
                "refused call"]
 REQUIRED = ["renumbered_ok", "cleared_ok", "refused_start", "refused_step", "refused_overflow",
-            "nested_group_shape", "second_call_ok", "addrgroup_ok"]
+            "nested_group_shape", "second_call_ok", "addrgroup_ok", "depth2_shape"]
 MAX = 4294967295
 STARTS = [-1, 0, 1, 2, 10, MAX - 5, MAX - 1, MAX, MAX + 1]
 STEPS = [-1, 0, 1, 2, 10, 2 ** 31, MAX, MAX + 1]
@@ -51,6 +51,16 @@ def shapes(max_leaves):
     return out
 
 
+def nested_shapes(max_leaves):
+    """Depth-2 shapes, built with the list methods: top = [pre?] + [outer] + [post?], outer =
+    a leaves + inner group of b leaves + c leaves.  Encoded as (pre, a, b, c, post)."""
+    out = []
+    for pre, a, b, c, post in product((0, 1), (0, 1, 2), (1, 2), (0, 1), (0, 1)):
+        if pre + a + b + c + post <= max_leaves + 1:
+            out.append((pre, a, b, c, post))
+    return out
+
+
 def describe(tier, seed):
     return dict(max_leaves=_N(tier), shapes=len(shapes(_N(tier))), starts=STARTS, steps=STEPS,
                 previous_numberings=PREV, second_calls=SECOND)
@@ -62,6 +72,8 @@ def units(tier, seed):
     for plat in ("ios", "nxos"):
         for i in range(len(shp)):
             out.append(dict(kind="acl", platform=plat, shape=i))
+        for i in range(len(nested_shapes(_N(tier)))):
+            out.append(dict(kind="nested", platform=plat, shape=i))
         out.append(dict(kind="acegroup", platform=plat))
         out.append(dict(kind="addrgroup", platform=plat))
     out.sort(key=lambda u: (u["kind"] != "acl", u.get("shape", 0)))
@@ -81,6 +93,15 @@ def run_unit(unit, ctx):
                     for second in SECOND:
                         _run(unit["platform"], "Acl", shape, mode, prev, [first, second], ctx)
         ctx.sample("acl", dict(shape=list(shape), platform=unit["platform"]))
+    elif unit["kind"] == "nested":
+        shape = nested_shapes(_N(ctx.tier))[unit["shape"]]
+        for prev in PREV[:4]:
+            for start, step in product(STARTS, STEPS):
+                _run(unit["platform"], "Acl", shape, "nested", prev, [(start, step)], ctx)
+            _run(unit["platform"], "Acl", shape, "nested", prev, [(10, 10), (5, 3)], ctx)
+            if shape[0] == 0 and shape[4] == 0:
+                _run(unit["platform"], "AceGroup", shape, "nested", prev, [(10, 10), (5, 3)], ctx)
+                _run(unit["platform"], "AceGroup", shape, "nested", prev, [(MAX - 2, 1)], ctx)
     elif unit["kind"] == "acegroup":
         for n in range(1, _N(ctx.tier) + 1):
             for prev in PREV:
@@ -128,6 +149,26 @@ def _build(platform, cls, shape, mode, prev_):
     def pre(i):
         return f"{nums[i]} " if nums[i] else ""
 
+    if mode == "nested":
+        p0, a, b, c, p1 = shape
+        n = p0 + a + b + c + p1
+        nums = _prev_numbers(prev, n)
+        lines = [pre(i) + aces[i % len(aces)] for i in range(n)]
+        inner = AceGroup(items=lines[p0 + a:p0 + a + b], platform=platform)
+        outer = AceGroup(items=lines[p0:p0 + a] + lines[p0 + a + b:p0 + a + b + c] or [lines[p0 + a]],
+                         platform=platform)
+        if not (a or c):
+            outer.pop(0)  # the outer group holds the inner group only
+        outer.insert(a, inner)  # depth 2 comes from the list methods
+        if cls == "AceGroup":
+            return outer, _leaves(outer)
+        obj = Acl(name="A", platform=platform, items=lines[:p0])
+        obj.append(outer)
+        from cisco_acl import Ace
+
+        for ln in lines[n - p1:] if p1 else []:
+            obj.append(Ace(ln, platform=platform))
+        return obj, _leaves(obj)
     if cls == "AddrGroup":
         head = "object-group network G" if platform == "ios" else "object-group ip address G"
         lines = [f"{pre(i)}host 10.0.0.{1 if same else i + 1}" for i in range(n)]
@@ -180,6 +221,12 @@ def _leaves(obj):
     return out
 
 
+def _depth(obj):
+    from cisco_acl import AceGroup
+
+    return max([1 + _depth(o) for o in obj.items if isinstance(o, AceGroup)] or [0])
+
+
 def _strip(line):
     toks = line.split()
     if toks and toks[0].isdigit():
@@ -202,9 +249,12 @@ def _run(platform, cls, shape, mode, prev, calls, ctx):
         ctx.viol("harness:build", case, repr(ex), "built")
         return
     n = len(leaves)
-    if n != sum(max(p, 1) for p in shape):
-        ctx.viol("harness:leaf_count", case, n, sum(max(p, 1) for p in shape))
+    n_want = sum(shape) if mode == "nested" else sum(max(p, 1) for p in shape)
+    if n != n_want or (mode == "nested" and _depth(obj) < (2 if cls == "Acl" else 1)):
+        ctx.viol("harness:leaf_count_or_depth", case, n, n_want)
         return
+    if mode == "nested":
+        ctx.out("depth2_shape")
     content = [_strip(o.line) for o in leaves]
     struct = _structure(obj) if cls != "AddrGroup" else None
     model = [o.sequence for o in leaves]
